@@ -307,6 +307,30 @@ func (c07) Run(t *tape.Tape, tier Tier) *Result {
 			}
 		}
 	}
+	// a barrier sent by a peer running the previous version of the library
+	// (other type name, plain message): the message is the barrier's text
+	if len(hiddenErrs) > 0 {
+		h := hiddenErrs[0]
+		const msg = "TKUprevQ replaced"
+		if data, p := obs.Encode(errors.HandledWithMessage(h, msg)); p == "" {
+			if enc, err := world.ParseWire(data); err == nil && enc.GetLeaf() != nil {
+				l := enc.GetLeaf()
+				old := strings.TrimSuffix(l.Details.ErrorTypeMark.FamilyName, "barrierErr") + "barrierError"
+				l.Details.OriginalTypeName, l.Details.ErrorTypeMark.FamilyName, l.Message = old, old, msg
+				if raw, merr := enc.Marshal(); merr == nil {
+					dec, p2 := obs.Decode(raw)
+					if p2 == "" && dec != nil {
+						if got := obs.S(func() string { return dec.Error() }); got != msg {
+							res.add(Violation{Prop: "C07", Oracle: "withmessage-replaces-text", Culprit: "previous-version barrier", Expected: msg, Observed: short(got)})
+						}
+						if errors.UnwrapOnce(dec) != nil {
+							res.add(Violation{Prop: "C07", Oracle: "unwrap-reaches-hidden", Culprit: "previous-version barrier", Expected: "nil", Observed: "non-nil"})
+						}
+					}
+				}
+			}
+		}
+	}
 	// the *WithMessage variants replace the text even with an empty message
 	if len(hiddenErrs) > 0 {
 		h := hiddenErrs[0]
